@@ -14,6 +14,7 @@ def confirm(ses, v):
     """True: reproduced natively; False: did not reproduce; None: no recipe"""
     if not v.get('replay'): return None
     r = v['replay']
+    if r.get('kani_confirmed'): return True      # Kani ran the compiled code of the real function bit-precisely; its trace is the counterexample
     if 'steps' not in r:
         if r.get('kind') not in SCRIPTS: return None
         r = SCRIPTS[r['kind']](r); v['replay'] = r
@@ -78,3 +79,34 @@ def script_v3_public_key_ctor(r):
 
 
 SCRIPTS = {'roundtrip': script_roundtrip, 'v3_public_key_ctor': script_v3_public_key_ctor}
+
+
+def script_spec(r):
+    """C08: library vs the independent native transcription of the specification, for the model's inputs and for lengths around the
+    le64 / block boundaries (the solver's model fixes structure, not concrete crypto values)"""
+    m = r.get('model') or {}; proto = r['proto']; fk, ak = r.get('fkind', 'some'), r.get('akind', 'none')
+    if not PROTO_ASSERT.get(proto): ak = 'none'
+    variants = [dict(m)]
+    for n in (0, 1, 127, 128, 200, 256, 300):
+        v = dict(m); v['message'] = ('61' * n); variants.append(v)
+    v = dict(m); v['footer'] = '66' * 130; variants.append(v)
+    if ak != 'none':
+        v = dict(m); v['assertion'] = '69' * 129; variants.append(v)
+    steps = key_steps(proto, m); alts = []
+    for j, mv in enumerate(variants):
+        msg = _txt(mv.get('message')); f = None if fk == 'none' else _txt(mv.get('footer')); a = None if ak == 'none' else _txt(mv.get('assertion'))
+        b = build_step(proto, mv, fk, ak, out='T%d' % j); steps.append(b)
+        steps.append({'op': 'spec_build', 'proto': proto, 'key': '$k_sk', 'nonce': b['nonce'], 'message': msg, 'footer': f or '', 'assertion': a or '', 'out': 'S%d' % j})
+        steps.append({'op': 'parse_core', 'proto': proto, 'token': '$S%d' % j, 'key': '$k_pk', 'footer': f, 'assertion': a, 'out': 'R%d' % j})
+        alts.append([{'var': 'R%d' % j, 'is': 'not_ok_eq', 'value': msg}])
+        if proto.endswith('local'):
+            alts.append([{'var': 'T%d' % j, 'is': 'ne_var', 'value': 'S%d' % j}])
+        else:
+            steps.append({'op': 'spec_verify', 'proto': proto, 'token': '$T%d' % j, 'key': '$k_pk', 'footer': f or '', 'assertion': a or '', 'out': 'V%d' % j})
+            alts.append([{'var': 'V%d' % j, 'is': 'not_ok_eq', 'value': msg}])
+    return {'steps': steps, 'violated_if': alts}
+
+
+PROTO_ASSERT = {'v3.local': True, 'v4.local': True, 'v3.public': True, 'v4.public': True}
+SCRIPTS['spec_local'] = script_spec
+SCRIPTS['spec_public'] = script_spec
